@@ -74,7 +74,7 @@ KOf(s, c) == CASE c = 0 -> s
 PushK(r, round) == 16711680 + 16 * round + r        \* 00 FF 0r..
 OffBag == <<0, 0, 0, 0, 0, 0, 0, 0, -1200, 1200, 3, -3, 7200>>
 IdBytes(s, c) == <<0, 0, 0, 0, 0, 0>>               \* placeholder, see above
-SigByte(s, c) == IF c = 2 THEN 26 ELSE IF c = 4 THEN 255 ELSE 10 + s
+SigByte(s, c) == IF c = 2 THEN 26 ELSE IF c = 4 THEN 255 ELSE (53 * s + 7) % 255
 Frame(ty, s, c, pay) == <<26, ty>> \o IdBytes(s, c) \o <<SigByte(s, c)>> \o pay
 
 (* trailing frames: DF17 identification of a fresh address FA rr kk, parity  *)
